@@ -35,6 +35,14 @@ Proof.
   split; [unfold KInv, keys in *; rewrite Hk, Hs; exact K|]. exists []. cbn. unfold abs_of. now rewrite Hk, Hs, Hp.
 Qed.
 
+Lemma Ref_same' c c' : abs_of c' = abs_of c -> (cp_ok c' = true -> cp_ok c = true) -> Ref c c'.
+Proof.
+  intros Ha Ho. split; [exact Ho|]. intros K O. unfold abs_of in Ha. injection Ha as Hk Hs Hp.
+  split; [unfold KInv, keys in *; rewrite Hk, Hs; exact K|]. exists []. cbn. unfold abs_of. now rewrite Hk, Hs, Hp.
+Qed.
+Lemma set_bad_Ref c : Ref c (set_bad c).
+Proof. apply Ref_same'; [reflexivity|cbn; discriminate]. Qed.
+
 Lemma fold_Ref {X} (step : cproc -> X -> cproc) : (forall c x, Ref c (step c x)) ->
   forall l c, Ref c (fold_left step l c).
 Proof.
@@ -156,8 +164,9 @@ Proof. destruct (nget node nd) eqn:G; [apply nset_keys; eapply nget_in; exact G|
 
 Lemma remove_ix_Ref ix c : Ref c (remove_ix ix c).
 Proof.
-  unfold remove_ix. destruct (nget ix (cp_edges c)) as [ns|]; [|apply Ref_refl].
-  apply Ref_same; [|reflexivity]. unfold abs_of. cbn [cp_nodes cp_ssa cp_path]. f_equal.
+  unfold remove_ix. destruct (nget ix (cp_edges c)) as [ns|]; [|apply set_bad_Ref].
+  apply Ref_same'; [|cbn [cp_ok]; intros H; now apply andb_prop in H].
+  unfold abs_of. cbn [cp_nodes cp_ssa cp_path]. f_equal.
   generalize (cp_nodes c). induction ns as [|node ns IH]; intros nd; cbn [fold_left]; [reflexivity|].
   rewrite IH. apply (upd_keys (filter (fun kv : nat * nat => negb (Nat.eqb (fst kv) ix)))).
 Qed.
@@ -235,13 +244,22 @@ Proof.
   - apply remaining_loop_Ref.
 Qed.
 
-Lemma g_push_c i j st : gs_c (g_push i j st) = gs_c st.
-Proof. reflexivity. Qed.
-Lemma fold_g_push_c {X} (f : X -> nat * nat) : forall l st,
-  gs_c (fold_left (fun s x => g_push (fst (f x)) (snd (f x)) s) l st) = gs_c st.
-Proof. induction l as [|x l IH]; intros st; cbn; [reflexivity|]. now rewrite IH. Qed.
+Lemma g_push_Ref sco i j st : Ref (gs_c st) (gs_c (g_push sco i j st)).
+Proof.
+  unfold g_push.
+  destruct (nget i (cp_nodes (gs_c st))); [|apply set_bad_Ref].
+  destruct (nget j (cp_nodes (gs_c st))); [|apply set_bad_Ref].
+  destruct (nget i (gs_sizes st)); [|apply set_bad_Ref].
+  destruct (nget j (gs_sizes st)); [|apply set_bad_Ref]. apply Ref_refl.
+Qed.
+Lemma fold_g_push_Ref {X} sco (f : X -> nat * nat) : forall l st,
+  Ref (gs_c st) (gs_c (fold_left (fun s x => g_push sco (fst (f x)) (snd (f x)) s) l st)).
+Proof.
+  induction l as [|x l IH]; intros st; cbn [fold_left]; [apply Ref_refl|].
+  eapply Ref_trans; [apply g_push_Ref|apply IH].
+Qed.
 
-Lemma greedy_loop_Ref : forall fuel st, Ref (gs_c st) (gs_c (greedy_loop fuel st)).
+Lemma greedy_loop_Ref sco : forall fuel st, Ref (gs_c st) (gs_c (greedy_loop sco fuel st)).
 Proof.
   induction fuel as [|f IH]; intros st; cbn [greedy_loop]; [apply Ref_refl|].
   destruct (gs_queue st) as [|x0 rest]; [apply Ref_refl|].
@@ -250,20 +268,20 @@ Proof.
   - destruct (contract_nodes (g_i g) (g_j g) (Some (g_klegs g)) (gs_c st)) as [c' k] eqn:E.
     pose proof (contract_nodes_Ref (g_i g) (g_j g) (Some (g_klegs g)) (gs_c st)) as R. rewrite E in R. cbn [fst] in R.
     eapply Ref_trans; [exact R|].
-    match goal with |- Ref _ (gs_c (greedy_loop f ?s)) =>
-      pose proof (IH s) as RI; replace (gs_c s) with c' in RI; [exact RI|] end.
-    symmetry. rewrite (fold_g_push_c (fun l => (k, l))). reflexivity.
+    match goal with |- Ref _ (gs_c (greedy_loop sco f (fold_left _ ?l ?s1))) =>
+      eapply Ref_trans; [apply (fold_g_push_Ref sco (fun l0 => (k, l0)) l s1)|apply IH] end.
   - apply (IH (mkGS (gs_c st) _ _ _ _)).
   - apply (IH (mkGS (gs_c st) _ _ _ _)).
 Qed.
 
-Lemma cp_greedy_Ref c : Ref c (cp_greedy c).
+Lemma cp_greedy_sc_Ref sco c : Ref c (cp_greedy_sc sco c).
 Proof.
-  unfold cp_greedy.
-  match goal with |- Ref c (gs_c (greedy_loop ?fu ?s)) =>
-    pose proof (greedy_loop_Ref fu s) as RI; replace (gs_c s) with c in RI; [exact RI|] end.
-  symmetry. rewrite (fold_g_push_c (fun p => p)). reflexivity.
+  unfold cp_greedy_sc.
+  match goal with |- Ref c (gs_c (greedy_loop sco ?fu (fold_left _ ?l ?s0))) =>
+    eapply Ref_trans; [apply (fold_g_push_Ref sco (fun p => p) l s0)|apply greedy_loop_Ref] end.
 Qed.
+Lemma cp_greedy_Ref c : Ref c (cp_greedy c).
+Proof. apply cp_greedy_sc_Ref. Qed.
 
 (* ------------------------------------------------------------------ *)
 (* the pipelines of optimize_simplify / optimize_greedy, concretely: whenever the model run
